@@ -28,6 +28,13 @@ class GenCls(Generic[TVar]):
     pass
 
 
+KVar = TypeVar("KVar")
+
+
+class PairCls(Generic[KVar, TVar]):
+    pass
+
+
 def _anyv() -> Any:
     ...
 
@@ -61,6 +68,8 @@ def py(t: dict, defs: list | None = None, uid: str = "") -> str:
         return " | ".join(rec(x) for x in a)
     if k == "Gen":
         return f"GenCls[{rec(a[0])}]"
+    if k == "Gen2":
+        return f"PairCls[{rec(a[0])}, {rec(a[1])}]"
     if k == "Literal":
         vals = []
         for ty, v in t["l"]:
